@@ -524,7 +524,10 @@ class OptimizationProblem(DataStoreAccessor, metaclass=ABCMeta):
         # First make sure that we treat single element vectors as scalars
         for i, v in enumerate(all_bounds):
             if isinstance(v, np.ndarray) and np.prod(v.shape) == 1:
-                all_bounds[i] = v.item()
+                v = all_bounds[i] = v.item()
+            if isinstance(v, int):
+                # Ints and floats are interchangeable as scalar bounds
+                all_bounds[i] = float(v)
 
         # Upcast lower bounds to be of equal type, and upper bounds as well.
         for i, j in [(0, 2), (2, 0), (1, 3), (3, 1)]:
